@@ -6,7 +6,7 @@ from functools import partial
 from multiprocessing import Pool
 from typing import Any
 
-from numpy import array, digitize, in1d, inf, isnan, linspace, quantile, sort, unique
+from numpy import array, digitize, in1d, inf, isnan, linspace, quantile, unique
 from pandas import DataFrame, Series
 
 from .base_discretizers import BaseDiscretizer, extend_docstring
@@ -145,7 +145,7 @@ def find_quantiles(
         _description_
     """
     return list(
-        sort(
+        unique(
             np_find_quantiles(
                 df_feature[~isnan(df_feature)],  # getting rid of missing values
                 q,
